@@ -14,7 +14,8 @@ CHECKS = {
             "end-of-data behaviours on the decoder's callback seam; sanitizers as invariant monitors",
             "Exploration: every run feeds one seeded byte string (real encoder output with stored-byte faults, cuts, "
             "random or constant bytes) to one of the 14 decoders through the simulated compressed-data source, via the "
-            "decoder API and via the per-type init/read callbacks on exact-size heap blocks; ASan/UBSan silence and "
+            "decoder API and via the per-type init/read callbacks on exact-size heap blocks; structured block/table headers with boundary "
+            "values in count and single-code fields for the static-Huffman family and -pm2-; ASan/UBSan silence and "
             "'read returns at most k' are the oracle. Sampling of a corruption neighbourhood, not a proof.",
             "Trusted: ASan + UBSan(bounds,null,pointer-overflow,...) see every invalid access except overflows that stay "
             "inside one allocation and are not statically bounded arrays; the source never answers short mid-stream.",
@@ -48,7 +49,9 @@ CHECKS.update({
             "every stream/allocator/filesystem/progress seam) checked against an executable reference reader model",
             "Exploration: each run compares every API observation of every reader (headers, fake flags, read bytes, verdicts, "
             "extraction results and files on SimFS) with a 150-line reference model fed from a canonical traversal; directory "
-            "re-presentation per policy, deferred-symlink order, sticky end and reader independence under interleaving are model rules.",
+            "re-presentation per policy, deferred-symlink order, sticky end and reader independence under interleaving are model rules; a third of "
+            "the runs repeat every history alone on a fresh filesystem and require identical observations; injected skip failures may end the "
+            "archive early once, nothing else.",
             "Trusted: H/B/V of the model come from the same library's canonical traversal; SimFS semantics (validated against the kernel); "
             "state shared only inside seam-free stretches is not reachable by the baton schedule.",
             "DESIGN.md 7 C15, appendix D"),
@@ -57,7 +60,10 @@ CHECKS.update({
             "prefix or marker+decoy) is traversed three ways through six simulated stream kinds and compared with the seekable-file reference",
             "Exploration with two enumerated sub-ranges (all prefix lengths 0..64 by run index; every run covers all 6 kinds x 3 "
             "traversal modes). Oracle: headers (incl. raw header digest), member bytes and check verdicts equal those of the bare "
-            "archive read from a seekable file. Prefix bytes are filtered by an independent scanner written from the statement.",
+            "archive read from a seekable file. Prefix bytes are filtered by an independent scanner written from the statement. "
+            "Injected stream faults (failing skip, read error): the headers returned must be a prefix of the reference sequence; stored "
+            "members containing complete small members ('ghosts'); declared packed sizes up to 2^32-1 incl. values that wrap to a negative "
+            "seek; 'lha CMD ARCHIVE' vs 'lha CMD -' (pipe, seekable stdin).",
             "Sources answer short only at end of input; pipes are non-seekable cookie streams; prefixes are a subset of the allowed "
             "ones (filler never contains '-' or 'L').",
             "DESIGN.md 7 C16"),
@@ -78,7 +84,8 @@ CHECKS.update({
             "storage) is scanned; a dedicated seeded hostile-name scenario feeds the monitor",
             "Exploration at the weakest level: the property is a pure-input invariant; the simulator contributes the monitor (checked in "
             "C08/C12/C13/C15/C16/C20 runs too) and a seeded generator over the alphabet {. / \\ 0xFF NUL | a A} for in-header names, "
-            "0x01/0x02 headers and symlink forms under every OS byte class. Not the exhaustive enumeration the quantifier mentions.",
+            "0x01/0x02 headers and symlink forms under every OS byte class, one string in four mixing in arbitrary bytes, one run in four with a "
+            "failing allocation. Not the exhaustive enumeration the quantifier mentions.",
             "Random sampling; strings up to length 6 are each reached with high probability in the thorough tier only.",
             "DESIGN.md 7 C11"),
     "C12": ("fault_enumeration",
@@ -93,7 +100,8 @@ CHECKS.update({
             TECH + "simulated terminal: stdout and stderr of every in-process CLI run are scanned byte by byte; a dedicated seeded scenario "
             "puts bytes 0x01-0xFF into every archive-derived string incl. the method field",
             "Exploration: invariant monitor on the captured terminal of every CLI run (also in C06/C07/C08/C10/C19 runs) plus a hostile-"
-            "string generator across modes l lv v vv t x xn xq0-2 xi p e with filters on SimFS.",
+            "string generator (incl. strings of 200-350 bytes) across modes l lv v vv t x xn xq0-2 xi p e with filters on SimFS; a quarter of the "
+            "runs also fail one allocation of the tool or library (A-FAIL from the fourth allocation on).",
             "Pure-input invariant claimed at the weakest level; file data dumped by 'p' is generated printable so that the whole output can be scanned.",
             "DESIGN.md 7 C18"),
     "C19": ("exploration",
